@@ -120,8 +120,20 @@ def setup(ctx):
                        "abi_tag": abi, "got": r, "expected": exp,
                        "group": f"{kind}/{pt[:2]}/{'abi3' if abi == 'abi3' else 'none' if abi == 'none' else 'concrete'}/{'got' if r else 'missing'}"})
 
-    def post_compat(args, kwargs, r):
-        spec, pts, abis, plats = args[0], args[1], args[2], args[3]
+    def pre_compat(args, kwargs):
+        return tuple(tuple(x) for x in args[1:4])
+
+    def post_compat(args, kwargs, r, before=None):
+        spec = args[0]
+        if before is not None:
+            # the verdict is about the tag sets the caller passed in: the oracle reads the snapshot taken before the
+            # call, and the caller's own lists must come back untouched
+            if tuple(tuple(x) for x in args[1:4]) != before:
+                violation(PROP, "EnvSpec.compatibility", "the call modified the tag lists passed in by the caller",
+                          {"before": [list(x) for x in before], "after": [list(x) for x in args[1:4]], "group": "arg-mutation"})
+            pts, abis, plats = (list(x) for x in before)
+        else:
+            pts, abis, plats = args[1], args[2], args[3]
         rp = spec.requires_python
         if not iv.readable(rp):
             return
@@ -143,18 +155,44 @@ def setup(ctx):
                            "first": r, "second": again, "group": "repeat"})
         got3 = None if r is None else tuple(r[:3])
         if got3 != best:
+            impl = spec.implementation
             violation(PROP, "EnvSpec.compatibility", "python/abi part of the score differs from the best pair",
                       {"requires_python": str(rp), "implementation": short, "gil_disabled": gil, "python_tags": pts,
-                       "abi_tags": abis, "got": r, "expected_first3": best, "group": "compat"})
+                       "abi_tags": abis, "platform_tags": plats, "platform": None if spec.platform is None else str(spec.platform),
+                       "got": r, "expected_first3": best, "group": "compat" + ("" if spec.platform is None else "/with-platform")},
+                      case={"kind": "call", "requires_python": str(rp), "impl": None if impl is None else [impl.name, impl.gil_disabled],
+                            "platform": None if spec.platform is None else str(spec.platform), "py": pts, "abi": abis, "plat": plats})
 
     install(T.EnvSpec, "_evaluate_python", post_eval)
-    install(T.EnvSpec, "compatibility", post_compat)
+    install(T.EnvSpec, "compatibility", post_compat, pre=pre_compat)
 
 
-def _mk(rp, impl):
+PLATFORMS = [None, "linux", "macos_14_0_arm64", "windows_amd64", "musllinux_1_2_x86_64", "manylinux_2_28_aarch64"]
+
+
+def _mk(rp, impl, platform=None):
     from dep_logic.tags import EnvSpec
 
-    return EnvSpec.from_spec(rp, None, impl[0] if impl else None, impl[1] if impl else False)
+    return EnvSpec.from_spec(rp, platform, impl[0] if impl else None, impl[1] if impl else False)
+
+
+def _plat_tags(rnd, spec):
+    """Platform tag sets of a wheel for this spec: `any`, one accepted tag, several (in either order), with a
+    foreign one mixed in - the python/abi verdict must not depend on whether / which platform the spec states."""
+    if spec.platform is None:
+        return ["any"]
+    tags = spec.platform.compatible_tags
+    k = rnd.random()
+    if k < 0.3 or not tags:
+        return ["any"]
+    if k < 0.55:
+        return [rnd.choice(tags)]
+    out = rnd.sample(tags, min(len(tags), rnd.randint(2, 3)))
+    if rnd.random() < 0.4:
+        out.insert(rnd.randrange(len(out) + 1), "foreign_platform_tag")
+    if rnd.random() < 0.3:
+        out.append("any")
+    return out
 
 
 def run(ctx):
@@ -171,7 +209,7 @@ def run(ctx):
         if idx % ctx.nshards != ctx.shard:
             continue
         try:
-            spec = _mk(rp, impl)
+            spec = _mk(rp, impl, PLATFORMS[idx % len(PLATFORMS)] if idx % 2 else None)
         except Exception as e:  # noqa: BLE001
             from dep_logic.specifiers import InvalidSpecifier, parse_version_specifier
 
@@ -188,7 +226,7 @@ def run(ctx):
                 if not full and abi not in ("none", "abi3") and rnd.random() < 0.5 and abi[2:4] != pt[2:4]:
                     continue
                 try:
-                    spec.compatibility([pt], [abi], ["any"])
+                    spec.compatibility([pt], [abi], _plat_tags(rnd, spec))
                 except Exception as e:  # noqa: BLE001
                     violation(PROP, "EnvSpec.compatibility", f"raised {type(e).__name__}",
                               {"requires_python": rp, "impl": impl, "python_tag": pt, "abi_tag": abi, "error": str(e)[:100],
@@ -205,8 +243,8 @@ def run(ctx):
                         continue
                     for a2 in abisets:
                         try:
-                            spec.compatibility(list(ptags), list(a2), ["any"])
-                            spec.compatibility(list(ptags), list(reversed(a2)), ["any"])
+                            spec.compatibility(list(ptags), list(a2), _plat_tags(rnd, spec))
+                            spec.compatibility(list(ptags), list(reversed(a2)), _plat_tags(rnd, spec))
                         except Exception as e:  # noqa: BLE001
                             violation(PROP, "EnvSpec.compatibility", f"raised {type(e).__name__}",
                                       {"requires_python": rp, "impl": impl, "python_tags": ptags, "abi_tags": a2, "error": str(e)[:100]})
@@ -217,7 +255,7 @@ def run(ctx):
             if rnd.random() < 0.5:
                 a2 = list({*a2, rnd.choice(["none", "abi3"])})
             try:
-                spec.compatibility(p2, a2, ["any"])
+                spec.compatibility(p2, a2, _plat_tags(rnd, spec))
             except Exception as e:  # noqa: BLE001
                 violation(PROP, "EnvSpec.compatibility", f"raised {type(e).__name__}",
                           {"requires_python": rp, "impl": impl, "python_tags": p2, "abi_tags": a2, "error": str(e)[:100]})
@@ -256,7 +294,10 @@ def replay(ctx, case):
 
         run_repo_tests(ctx, nodeid=case["nodeid"])
         return
-    spec = _mk(case["requires_python"], tuple(case["impl"]) if case.get("impl") else None)
+    spec = _mk(case["requires_python"], tuple(case["impl"]) if case.get("impl") else None, case.get("platform"))
+    if case["kind"] == "call":
+        spec.compatibility(case["py"], case["abi"], case["plat"])
+        return
     if case["kind"] == "one":
         spec.compatibility(case["py"], case["abi"], ["any"])
         return
